@@ -31,10 +31,7 @@ func checkC02(rep *Report, rng *Rng, tier string) {
 	modelOn = true
 	rep.Rule = "seeded histories of mutations over 1-3 collections (4 comparators) with Flush at arbitrary positions, collection creation/removal, evictions, and re-opens after which the history continues on the re-opened store; after EVERY step a fresh Store is opened on a copy of the current file image and its full contents (names, keys, values, priorities, totals) are compared with the reference state of the last successful Flush; non-trivial = at least one flush and 8 ops"
 	HistoryLoop(rep, rng, n, func(r *Rng, i int) (RunCfg, []Op, string) {
-		g := GenCfg{FileBacked: true, NColls: 1 + r.Intn(3), NOps: 30 + r.Intn(70), CmpMode: r.Intn(2), Structural: true, CollMgmt: r.Chance(1, 2),
-			PrioMode: r.Intn(4), BigVals: r.Chance(1, 5), Invalid: r.Chance(1, 4), NKeys: 6 + r.Intn(30)}
-		ops := GenHistory(r, g)
-		d := CfgDesc{Check: "C02", FileBacked: true, CmpCB: g.CmpMode == 1, ReopenDump: true, DumpEvery: i%3 == 0}
+		d, ops := genC02(r, i)
 		return d.RunCfg(), ops, d.String()
 	}, nil)
 	modelCompare(rep, "C02")
@@ -118,68 +115,7 @@ func checkC06(rep *Report, rng *Rng, tier string) {
 	modelOn = true
 	rep.Rule = "seeded collection contents (4 comparators incl. case-insensitive with mixed-case keys) followed by visits with every interesting target (each key, neighbours, below min, above max, empty), both value modes, every stop position, plain/Ex/iterator variants, ascending and descending, in cache states reached by flush/evict/re-open/previous visits; delivered (key,value,priority) sequences compared with the reference and the Coq model, depths with the true depth in the implementation's own tree (heap dump) and with the model where C13 makes the shape canonical; non-trivial = at least 8 ops incl. a visit"
 	HistoryLoop(rep, rng, n, func(r *Rng, i int) (RunCfg, []Op, string) {
-		g := GenCfg{FileBacked: r.Chance(2, 3), NColls: 1 + r.Intn(2), NOps: 15 + r.Intn(40), CmpMode: r.Intn(2), Structural: true, PrioMode: r.Intn(4), NKeys: 4 + r.Intn(20)}
-		ops := GenHistory(r, g)
-		var names []string
-		var keys [][]byte
-		for _, o := range ops {
-			if o.K == "coll" {
-				names = append(names, o.Name)
-			}
-			if o.K == "set" && len(o.Key) > 0 && len(o.Key) < 100 {
-				keys = append(keys, o.Key)
-			}
-		}
-		nv := 20 + r.Intn(40)
-		for j := 0; j < nv; j++ {
-			var tgt []byte
-			switch r.Intn(8) {
-			case 0:
-				tgt = []byte{}
-			case 1:
-				tgt = []byte{0}
-			case 2:
-				tgt = []byte{0xff, 0xff, 0xff}
-			case 3:
-				if len(keys) > 0 {
-					k := keys[r.Intn(len(keys))]
-					tgt = append(append([]byte{}, k...), 0)
-				}
-			case 4:
-				if len(keys) > 0 {
-					k := keys[r.Intn(len(keys))]
-					tgt = append([]byte{}, k[:len(k)-1]...)
-				}
-			default:
-				if len(keys) > 0 {
-					tgt = keys[r.Intn(len(keys))]
-				}
-			}
-			if tgt == nil {
-				tgt = []byte{}
-			}
-			stop := -1
-			if r.Chance(2, 3) {
-				stop = r.Intn(len(keys) + 2)
-			}
-			k := []string{"asc", "desc", "ascx", "descx", "itasc", "itdesc", "nasc", "ndesc", "nit"}[r.Intn(9)]
-			ops = append(ops, Op{K: k, Name: names[r.Intn(len(names))], Key: tgt, WV: r.Chance(2, 3), N: stop})
-			switch r.Intn(12) {
-			case 0:
-				ops = append(ops, Op{K: "flush"})
-			case 1:
-				ops = append(ops, Op{K: "evict", Name: names[r.Intn(len(names))]})
-			case 2:
-				if g.FileBacked {
-					ops = append(ops, Op{K: "reopen"})
-				}
-			case 3:
-				if len(keys) > 0 {
-					ops = append(ops, Op{K: "set", Name: names[r.Intn(len(names))], Key: keys[r.Intn(len(keys))], Val: genVal(r, false), Prio: int32(r.U64() & 0x7fffffff)})
-				}
-			}
-		}
-		d := CfgDesc{Check: "C06", FileBacked: g.FileBacked, CmpCB: g.CmpMode == 1, Post: "depth"}
+		d, ops := genC06(r, i)
 		return d.RunCfg(), ops, d.String()
 	}, nil)
 	modelCompare(rep, "C06")
@@ -523,4 +459,78 @@ func checkC19(rep *Report, rng *Rng, tier string) {
 		return d.RunCfg(), out, d.String()
 	}, nil)
 	rep.Extra["reopens_generated"] = opens
+}
+
+func genC02(r *Rng, i int) (CfgDesc, []Op) {
+	g := GenCfg{FileBacked: true, NColls: 1 + r.Intn(3), NOps: 30 + r.Intn(70), CmpMode: r.Intn(2), Structural: true, CollMgmt: r.Chance(1, 2),
+		PrioMode: r.Intn(4), BigVals: r.Chance(1, 5), Invalid: r.Chance(1, 4), NKeys: 6 + r.Intn(30)}
+	ops := GenHistory(r, g)
+	d := CfgDesc{Check: "C02", FileBacked: true, CmpCB: g.CmpMode == 1, ReopenDump: true, DumpEvery: i%3 == 0}
+	return d, ops
+}
+
+func genC06(r *Rng, i int) (CfgDesc, []Op) {
+	g := GenCfg{FileBacked: r.Chance(2, 3), NColls: 1 + r.Intn(2), NOps: 15 + r.Intn(40), CmpMode: r.Intn(2), Structural: true, PrioMode: r.Intn(4), NKeys: 4 + r.Intn(20)}
+	ops := GenHistory(r, g)
+	var names []string
+	var keys [][]byte
+	for _, o := range ops {
+		if o.K == "coll" {
+			names = append(names, o.Name)
+		}
+		if o.K == "set" && len(o.Key) > 0 && len(o.Key) < 100 {
+			keys = append(keys, o.Key)
+		}
+	}
+	nv := 20 + r.Intn(40)
+	for j := 0; j < nv; j++ {
+		var tgt []byte
+		switch r.Intn(8) {
+		case 0:
+			tgt = []byte{}
+		case 1:
+			tgt = []byte{0}
+		case 2:
+			tgt = []byte{0xff, 0xff, 0xff}
+		case 3:
+			if len(keys) > 0 {
+				k := keys[r.Intn(len(keys))]
+				tgt = append(append([]byte{}, k...), 0)
+			}
+		case 4:
+			if len(keys) > 0 {
+				k := keys[r.Intn(len(keys))]
+				tgt = append([]byte{}, k[:len(k)-1]...)
+			}
+		default:
+			if len(keys) > 0 {
+				tgt = keys[r.Intn(len(keys))]
+			}
+		}
+		if tgt == nil {
+			tgt = []byte{}
+		}
+		stop := -1
+		if r.Chance(2, 3) {
+			stop = r.Intn(len(keys) + 2)
+		}
+		k := []string{"asc", "desc", "ascx", "descx", "itasc", "itdesc", "nasc", "ndesc", "nit"}[r.Intn(9)]
+		ops = append(ops, Op{K: k, Name: names[r.Intn(len(names))], Key: tgt, WV: r.Chance(2, 3), N: stop})
+		switch r.Intn(12) {
+		case 0:
+			ops = append(ops, Op{K: "flush"})
+		case 1:
+			ops = append(ops, Op{K: "evict", Name: names[r.Intn(len(names))]})
+		case 2:
+			if g.FileBacked {
+				ops = append(ops, Op{K: "reopen"})
+			}
+		case 3:
+			if len(keys) > 0 {
+				ops = append(ops, Op{K: "set", Name: names[r.Intn(len(names))], Key: keys[r.Intn(len(keys))], Val: genVal(r, false), Prio: int32(r.U64() & 0x7fffffff)})
+			}
+		}
+	}
+	d := CfgDesc{Check: "C06", FileBacked: g.FileBacked, CmpCB: g.CmpMode == 1, Post: "depth"}
+	return d, ops
 }
